@@ -10,7 +10,8 @@
     WHAT IS PROVED HERE.  [pipeline_order pi VS F ES bs opname raw W] (Pipe/Compose.v) is ONE executable
     model of graphql.Execute on the BYTES [bs] of the request text: the parser model of C06 driven
     by the scanner model of C07 ([FrontEnd.parse_document_bytes]), the glue of
-    graphql.ParseAndValidate, the validator model of C04 ([validate_model repaired]) on the
+    graphql.ParseAndValidate, the validator model of C04 ([validate_model_memo repaired], the one C04's
+    check ties to the code) on the
     structurally converted tree ([Convert.vld_of_syn]), GetOperation and the synchronous executor
     model of C01 (coq/ExeA: [ArgModel.run fixed] with [default_fuel], field arguments coerced by
     C05's [coerce_argument_values]) on [Convert.exe_of_syn], after C05's [coerce_variable_values] on
@@ -46,7 +47,7 @@
       case (so the gap is tested on every run, not assumed).  Half of the obligation IS proved
       ([C03_validated_type_conditions_composite]: type conditions of an accepted text are composite,
       so the executor's panic("unexpected fragment type") is unreachable); the other half (typing of
-      the collected fields, [validate_establishes_typing], spelled out below) is the explicit
+      the collected fields, [validate_establishes_sels_ok], spelled out below; the root type too is proved) is the explicit
       premise of [C03_validate_establishes_doc_ok_partial] / [C03_pipeline_response_partial]: with
       it, every request with evaluable conditions gets a response.
     - [doc_ok] contains C01's hypothesis that every @skip/@include condition has a boolean value.
@@ -54,14 +55,15 @@
       the directive's argument cannot be coerced, the selection is left out with an error).  Such
       requests get [PUnevaluable r]: the executor model's answer, compared by the check, with no
       theorem about it ([request_evaluable] is the hypothesis of [C03_pipeline_total]).
-    - Outside the composition: the cost rule (C14), Subscribe and asynchronous
+    - Outside the composition: Subscribe and asynchronous
       resolvers (C02), the serialiser itself (encoding/json; [json_finite] is the condition under
       which it accepts a number), stack depth of the Go runtime.  For these the glue theorems of
       round 1 (…_partial below) and the hostile stream remain the evidence. *)
 From Coq Require Import List NArith.
 From ApiFu Require Import Base.Sexp.
 From ApiFu Require Syn.Ast Syn.ParserModel Syn.FrontEnd Vld.Ast Vld.ValidatorModel Vld.ProofsCommon Val.Values ExeA.ArgData ExeA.ArgArgs ExeA.ArgModel ExeA.ArgSpec ExeA.ArgHyps.
-From ApiFu Require Import Pipe.PipelineModel Pipe.PipelineProofs Pipe.Convert Pipe.Compose Pipe.SchemaAgree Pipe.PositionsProofs Pipe.ComposeProofs Pipe.CondsProofs.
+From ApiFu Require Vld.MemoEquiv.
+From ApiFu Require Import Pipe.PipelineModel Pipe.PipelineProofs Pipe.Convert Pipe.Compose Pipe.SchemaAgree Pipe.PositionsProofs Pipe.FieldPositions Pipe.ComposeProofs Pipe.CondsProofs Pipe.TypingProofs Pipe.CostCompose Pipe.CostComposeProofs.
 Import ListNotations.
 
 (** ** the composed model, from bytes *)
@@ -175,29 +177,78 @@ Theorem C03_composite_condition_never_unexpected : forall ES c ot,
   ExeA.ArgSpec.cond_ok ES c = true -> ExeA.ArgModel.type_applies ES ot c <> ExeA.ArgModel.ApPanic.
 Proof. exact cond_ok_no_panic. Qed.
 
-(** NOT PROVED — the remaining obligation (C04's [validate_ok_doc_ok], typing half):
-    [validate_establishes_typing pi VS F ES] :=
-      forall bs d opname o E,
+(** PROVED as well: conjunct (c), the root type of the selected operation exists in the executor's
+    schema (C04's valid_root across the conversions and [schemas_agree]) *)
+Theorem C03_validated_root_type_exists : forall pi VS F ES bs d opname o vv,
+  Vld.ProofsCommon.order_ok pi -> schemas_agree VS ES = true ->
+  parse_and_validate_order pi VS F bs = FAccepted d ->
+  ExeA.ArgModel.get_operation (exe_of_syn d) opname = ExeA.ArgModel.GOp o ->
+  exists rt, ExeA.ArgSpec.s_root_type ES (ExeA.ArgData.op_kind (ExeA.ArgData.doc_of (exe_of_syn d) o vv)) = Some rt.
+Proof. exact accepted_root_type. Qed.
+
+(** the positions hypothesis of C04's memo theorems (the validator's memo identifies a pair of
+    fields by their positions) holds of every parsed text: the composed model validates with
+    [validate_model_memo], the model C04's check ties to the code, and C04_memo_equiv_parsed /
+    C04_memo_verdict_deterministic apply to it (C06_parse_bytes_pos_injective across [vld_of_syn]) *)
+Theorem C03_parsed_field_positions_distinct : forall bs d es,
+  Syn.FrontEnd.parse_document_bytes bs = Syn.ParserModel.Out (Some d) es ->
+  Vld.MemoEquiv.doc_field_positions_distinct (vld_of_syn d).
+Proof. exact parsed_field_positions_distinct. Qed.
+
+(** conjunct (g) [args_total]: argument coercion in executeField never reaches the "unsupported
+    type" panic of the coercion code, whatever the document (C05's no-panic theorem through C01's
+    [coerce_field_args]), for schemas with closed input and argument types *)
+Theorem C03_argument_coercion_never_unsupported : forall ES D ot f,
+  cost_schema_accepted ES = true -> ExeA.ArgSpec.args_total ES D ot f = true.
+Proof. exact args_total_closed. Qed.
+
+(** NOT PROVED — the remaining obligation, exactly [sels_ok]: conjuncts (d) - (i) of the list in
+    the header of Properties/C01.v.
+    [validate_establishes_sels_ok pi VS F ES] :=
+      forall bs d opname o vv rt,
         parse_and_validate_order pi VS F bs = FAccepted d ->
         get_operation (exe_of_syn d) opname = GOp o ->
-        let D := doc_of (exe_of_syn d) o in
-        dirs_evaluable D E = true -> doc_typed ES D E = true.
+        let D := doc_of (exe_of_syn d) o vv in  let E := env_of_vars vv in
+        dirs_evaluable D E = true -> s_root_type ES (op_kind D) = Some rt ->
+        sels_ok ES D E (default_fuel D) (default_fuel D) rt (op_sels D) = true.
+    Status of its conjuncts: (d) fuel and (e) non-empty groups are C01's own lemmas
+    (C01_collect_fuel_sufficient); (g) [args_total] is proved above; (f) needs the step from C04's [fields_defined] (fields defined on the static parent type:
+    C04_accepted_doc_ok_conjuncts) to every possible object type, (h) output types is schema
+    construction; (i), the recursion into the MERGED sub-selections of a group, types them against
+    the FIRST field node's type and therefore needs 5.3.2 (fields of one response key have the same
+    name and shape), whose model-vs-Spec equivalence C04 has not proved.
     The composed model evaluates [doc_ok] on every run instead (outcome [PContractBroken CDocOk],
     an oracle failure of the check).  With it, [validate_establishes_doc_ok] follows ... *)
 Theorem C03_validate_establishes_doc_ok_partial : forall pi VS F ES,
   Vld.ProofsCommon.order_ok pi -> schemas_agree VS ES = true ->
-  validate_establishes_typing pi VS F ES -> validate_establishes_doc_ok pi VS F ES.
-Proof. exact doc_ok_from_typing. Qed.
+  validate_establishes_sels_ok pi VS F ES -> validate_establishes_doc_ok pi VS F ES.
+Proof. exact doc_ok_from_sels_ok. Qed.
 
 (** ... and every request with evaluable conditions whose text keeps positions below line 2^24 /
     column 2^32 ([text_positions_small]) gets a response: no broken contract is left *)
 Theorem C03_pipeline_response_partial : forall pi VS F ES bs opname raw W,
   Vld.ProofsCommon.order_ok pi ->
   schema_accepted ES = true -> schemas_agree VS ES = true ->
-  validate_establishes_typing pi VS F ES -> text_positions_small bs ->
+  validate_establishes_sels_ok pi VS F ES -> text_positions_small bs ->
   request_evaluable pi VS F ES bs opname raw ->
   is_response (pipeline_order pi VS F ES bs opname raw W) = true.
-Proof. exact pipeline_response_if_typing. Qed.
+Proof. exact pipeline_response_if_sels_ok. Qed.
+
+(** ** the cost rule inside the composition.
+    [parse_validate_cost pi VS F ES bs opname raw r max] (Pipe/CostCompose.v) is
+    graphql.ParseAndValidate(bs, schema, features, ValidateCost(opname, raw, max, &actual,
+    FieldCost{Resolver: r})): the front half above, then C14's [validate_cost_request] (validate_cost.go
+    with C05's variable and argument coercion) on the document as TypeInfo annotates it
+    (C04's [pti_doc]); outcome: syntax errors / validation errors (of the standard rules or of the cost
+    rule) / accepted with [*actual].  For every byte string, operation name, raw variable values,
+    default cost, limit, map order and schema with closed input and argument types, no stage of it
+    panics or runs out of fuel (C03_front_never_panics, C05's no-panic theorems,
+    C14_request_never_out_of_fuel, and the stack invariant of the walk: Pipe/CostNoPanic.v — every
+    [multipliers[len-1]] / [multipliers[:len-1]] of validate_cost.go is in range) *)
+Theorem C03_validate_with_cost_never_crashes : forall pi VS F ES bs opname raw r max,
+  Vld.ProofsCommon.order_ok pi -> cost_schema_accepted ES = true ->
+  parse_validate_cost pi VS F ES bs opname raw r max <> CCrashed.
+Proof. exact parse_validate_cost_never_crashes. Qed.
 
 (** ** the glue of graphql.go over observed stage verdicts (round 1; still what covers Subscribe,
     the cost rule, argument coercion and everything else outside the composed model) *)
@@ -232,8 +283,12 @@ Print Assumptions C03_parsed_positions_distinct.
 Print Assumptions C03_pipeline_order_independent.
 Print Assumptions C03_validated_type_conditions_composite.
 Print Assumptions C03_composite_condition_never_unexpected.
+Print Assumptions C03_validated_root_type_exists.
+Print Assumptions C03_parsed_field_positions_distinct.
+Print Assumptions C03_argument_coercion_never_unsupported.
 Print Assumptions C03_validate_establishes_doc_ok_partial.
 Print Assumptions C03_pipeline_response_partial.
+Print Assumptions C03_validate_with_cost_never_crashes.
 Print Assumptions C03_execute_total_partial.
 Print Assumptions C03_execute_data_or_errors_partial.
 Print Assumptions C03_subscribe_total_partial.
